@@ -8,6 +8,10 @@
     ctor <a1> … <an>  (2 ≤ n ≤ 8) new Date(a1,…,an) with local time = UTC: the ten observations
     set <v> <step>…                d = new Date(v); each step `name:arg,arg…` is d.setUTC<name>(args) (time = setTime);
                                    reply: return values, then `|`, then the ten observations of the final object
+    sset <v> <step>…               the same with scripted arguments: `n<hex>` a number, `o<hex>` an object whose valueOf logs its
+                                   index and returns the number, `t` an object whose valueOf logs and throws;
+                                   reply: per step `<log>:<return value | throw>`, then `|`, then the observations
+    sutc <arg> … (2..8)            Date.UTC with scripted arguments; reply `<log>:<value | throw>`
   reply:  <model> <spec> <dev>
 -/
 import OttoVerif.Base.Proto
@@ -61,6 +65,67 @@ def step? (w : String) : Option (Setter × List FV) :=
 /-- No deviation region is left for this property: every request is expected to agree with the spec. -/
 def noDev : String := "-"
 
+def arg? (w : String) : Option Arg :=
+  if w = "t" then some .thrower
+  else match w.toList with
+    | 'n' :: h => (f64? (String.ofList h)).map .num
+    | 'o' :: h => (f64? (String.ofList h)).map .obj
+    | _ => none
+
+def toSpecArg : Arg → Spec.Arg
+  | .num x => .num x | .obj x => .obj x | .thrower => .thrower
+
+def sstep? (w : String) : Option (Setter × List Arg) :=
+  match w.splitOn ":" with
+  | [k, a] => do
+    let k ← setterM? k
+    let as ← if a.isEmpty then some [] else (a.splitOn ",").mapM arg?
+    pure (k, as)
+  | _ => none
+
+def logOut (l : List Nat) : String := if l.isEmpty then "-" else ".".intercalate (l.map toString)
+def outcomeOut : Outcome → String
+  | .ret n => numOut n | .threw => "throw"
+def outcomeOutS : Spec.Outcome → String
+  | .ret n => numOut n | .threw => "throw"
+
+/-- index of the first non-finite number (by `bad`) not preceded by a thrower, if a later argument logs -/
+def stopsEarly (bad : FV → Bool) (as : List Arg) : Bool :=
+  let rec go : List Arg → Bool
+    | [] => false
+    | a :: rest => match a.val? with
+      | none => false
+      | some x => if bad x then rest.any Arg.logs else go rest
+  go as
+
+/-- a thrower is reached by otto's loop (no non-finite number before it) -/
+def reachesThrower (bad : FV → Bool) (as : List Arg) : Bool :=
+  let rec go : List Arg → Bool
+    | [] => false
+    | a :: rest => match a.val? with
+      | none => true
+      | some x => if bad x then false else go rest
+  go as
+
+def setterDev (k : Setter) (d : DateObj) (args : List Arg) : List String :=
+  let as := args.take k.limit
+  let bad := fun x => (numberArg x).isNone
+  if k = .time then []
+  else if d.isNaN ∧ k ≠ .year then (if as.any Arg.logs then ["conv_skipped_on_invalid"] else [])
+  else (if stopsEarly bad as then ["conv_stops_at_nonfinite"] else [])
+       ++ (if k = .year ∧ d.isNaN ∧ reachesThrower bad as then ["fullyear_throw_resets"] else [])
+
+def runBothS (d : DateObj) : List (Setter × List Arg) → List String → List String
+  | [], devs => devs
+  | (k, a) :: rest, devs =>
+    let devs := devs ++ setterDev k d a
+    let (d', _, _) := setUTCS k d a
+    runBothS d' rest devs
+
+def devList (ds : List String) : String :=
+  let ds := ds.eraseDups
+  if ds.isEmpty then "-" else ",".intercalate ds
+
 def reply (m s : String) (dev : String) : String := m ++ " " ++ s ++ " " ++ dev
 
 def handle (ws : List String) : String :=
@@ -104,6 +169,22 @@ def handle (ws : List String) : String :=
       let (tf, ss) := Spec.runSetters (Spec.clipNumber v) (hs.map (fun s => (toSpecSetter s.1, s.2)))
       reply (join (rs.map numOut) ++ "|" ++ obsModel df) (join (ss.map numOut) ++ "|" ++ obsSpec tf) noDev
     | _, _ => "bad-op"
+  | "sset" :: a :: steps => match f64? a, steps.mapM sstep? with
+    | some v, some hs =>
+      let (df, rs) := runSettersS (newDate v) hs
+      let (tf, ss) := Spec.runSettersS (Spec.clipNumber v) (hs.map (fun s => (toSpecSetter s.1, s.2.map toSpecArg)))
+      let devs := runBothS (newDate v) hs []
+      reply (join (rs.map (fun r => logOut r.2 ++ ":" ++ outcomeOut r.1)) ++ "|" ++ obsModel df)
+            (join (ss.map (fun r => logOut r.2 ++ ":" ++ outcomeOutS r.1)) ++ "|" ++ obsSpec tf) (devList devs)
+    | _, _ => "bad-op"
+  | "sutc" :: as => match as.mapM arg? with
+    | some args =>
+      if args.length < 2 then "bad-op" else
+      let (mo, ml) := newDateTimeS args
+      let (so, sl) := Spec.dateUTCS (args.map toSpecArg)
+      let dev := if stopsEarly (fun x => isNaN x || isInf x) (args.take 7) then ["conv_stops_at_nonfinite"] else []
+      reply (logOut ml ++ ":" ++ outcomeOut mo) (logOut sl ++ ":" ++ outcomeOutS so) (devList dev)
+    | none => "bad-op"
   | _ => "bad-op"
 
 end OttoVerif.C12.Driver
